@@ -83,7 +83,9 @@ def check(ctx: Ctx) -> str:
     body = [x for x in wr.node.body if not (isinstance(x, ast.Expr) and isinstance(x.value, ast.Constant))]  # type: ignore[attr-defined]
     ctx.check(not body or all(isinstance(x, ast.Pass) for x in body), "tracking:write", "meta:TrackingCodeGenerator.write", "write is a no-op", "the tracking generator must not write", wr.loc())
     fu = repo.func("meta:find_undeclared_variables")
-    ctx.check("codegen.visit(ast)" in ast.unparse(fu.node) and "return codegen.undeclared_identifiers" in ast.unparse(fu.node), "find_undeclared_variables", "meta:find_undeclared_variables", "runs the generator", "find_undeclared_variables must run the tracking generator over the whole template", fu.loc())
+    made_ = [a for a in ast.walk(fu.node) if isinstance(a, ast.Assign) and isinstance(a.value, ast.Call) and astq.callee(a.value) == "TrackingCodeGenerator" and isinstance(a.targets[0], ast.Name)]
+    gv_ = made_[0].targets[0].id if len(made_) == 1 else "codegen"  # type: ignore[attr-defined]
+    ctx.check(f"{gv_}.visit(ast)" in ast.unparse(fu.node) and f"return {gv_}.undeclared_identifiers" in ast.unparse(fu.node), "find_undeclared_variables", "meta:find_undeclared_variables", "runs the generator", "find_undeclared_variables must run the tracking generator over the whole template", fu.loc())
     # loads with the resolve instruction are created only by Symbols.load / branch_update
     sym = repo.cls("idtracking:Symbols")
     producers = sorted({name for name, fn in sym.methods.items() if "VAR_LOAD_RESOLVE" in ast.unparse(fn)})
